@@ -55,6 +55,8 @@ int64_t addTrafficOp(Gen& g, int node, int nodeType, bool allowSeg, int maxSeg)
                 s.set("trail", r.range(1, 40)).set("tfill", static_cast<int64_t>(r.below(2)));
             else if (r.chance(1, 12))
                 s.set("trail", r.range(30, 200)).set("tfill", 2).set("tpad", r.range(0, 80));  // well-formed messages behind the segment
+            if (r.chance(1, 10))
+                s.set("lead", r.range(1, 3));  // unsegmented messages in front of the segment, in its frame (honest senders: first frame only)
             segs.push_back(std::move(s));
         }
         Item& op = g.addOp(OP_RAWSEG, node, nseg);
@@ -675,6 +677,8 @@ Plan genHostile(const std::string& prop, int tier, uint64_t batchSeed, uint64_t 
             op.sub.push_back(std::move(m));
         }
     }
+    if (c17 && r.chance(1, 4))
+        g.cfg().set("straysoak", static_cast<int64_t>(1 + r.below(1000000)));  // heap-growth probe at quiescence (world.cpp, finish)
     return g.finish();
 }
 
@@ -804,6 +808,8 @@ Plan genWire(const std::string& prop, int tier, uint64_t batchSeed, uint64_t idx
             }
             op.sub.push_back(std::move(m));
         }
+        if (r.chance(1, 8))
+            op.set("slo", r.chance(2, 3) ? static_cast<int64_t>(r.below(5)) * 2 : static_cast<int64_t>(r.below(40))).set("sld", r.pick<int64_t>({0, 8, 12, 16, 24, 28, 32, 40}) + (r.chance(1, 4) ? r.range(-2, 2) : 0));
         // transit: a frame cut short, or Ethernet minimum-size zero padding
         switch (r.below(6))
         {
